@@ -111,4 +111,16 @@ def histCase (fileEvs body : List ScEv) : String × String :=
   (" ".intercalate (pre ++ ["void", "f", "(", "void", ")", "{"] ++ renderHist body 100 ++ ["}"]),
    " ".intercalate (expectedProbes [] all))
 
+/-- the same with parameters of the function definition: named ones are objects of the body's
+outermost scope (6.2.1p4), unnamed ones (accepted as an extension) declare nothing -/
+def histCaseP (fileEvs : List ScEv) (params : List (Option String)) (body : List ScEv) : String × String :=
+  let pre := renderHist fileEvs 0
+  let pobjs : List ScEv := params.filterMap fun p => p.map ScEv.object
+  let all := fileEvs ++ [.openBlock] ++ pobjs ++ body
+  let ptoks : List String :=
+    if params.isEmpty then ["void"]
+    else ((params.map fun p => match p with | some n => ["int", n] | none => ["int"]).intersperse [","]).flatten
+  (" ".intercalate (pre ++ ["void", "f", "("] ++ ptoks ++ [")", "{"] ++ renderHist body 100 ++ ["}"]),
+   " ".intercalate (expectedProbes [] all))
+
 end PycModel.Spec
